@@ -9,6 +9,21 @@ CHECKS = {
     "C03": ("exploration", "runtime monitoring: conservation/exactly-once oracle over seeded concurrent queue programs + Miri data-race/UB interpreter (many scheduler seeds) + TSan",
             "Held on the explored executions only: seeded multi-thread push/pop programs on the real queue sources, judged at quiescence by a conservation oracle (no duplicate, popped+drained == pushed, reported shared length == content), under native stress, Miri's randomised scheduler (data races, UB) and TSan. Sampling, not exhaustive over schedules.",
             "Trusts: Miri/TSan memory models; crossbeam/st3 internals (Stacked Borrows disabled because the dependencies trip it); local handles used by one thread each.", "DESIGN.md §3 C03", "wl-pure/queues"),
+    "C04": ("exploration", "runtime monitoring: per-call thread-CPU-time watchdog (bounded-progress restatement of termination) over seeded sequential histories and concurrent programs",
+            "Termination restated as bounded progress: no push/pop call may burn more than 1 s of its own thread's CPU time. Held on the explored histories (hundreds to thousands of seeded sequential histories built to steal-then-overflow, plus concurrent programs); a finite run cannot decide unbounded termination.",
+            "Trusts the thread CPU clock; the 1 s bound is 5 orders of magnitude above a healthy call; submission is covered through the queue calls it makes plus the runtime-level submitter watchdog in C01.", "DESIGN.md §3 C04", "wl-pure/queues"),
+    "C05": ("exploration", "runtime monitoring: reference-model (ordered multimap) oracle over seeded histories + bounded-exhaustive small histories",
+            "Pop order compared against an ordered-multimap model wherever the statement is unambiguous (shared queue alone, one local within capacity, steal batches incl. priority preservation), thousands of seeded histories with ties/extreme priorities plus every history of <= 5 (quick) / 7 (thorough) ops over 3 priorities; pool-level single-worker start order in the runtime-level workload.",
+            "Sequential histories; overflowed histories are deliberately not judged against a global order (the statement does not promise one).", "DESIGN.md §3 C05", "wl-pure/queues"),
+    "C06": ("exploration", "runtime monitoring: enumerated configurations with a counting oracle (pops until the shared item appears <= 61; idle pop != None)",
+            "Every (prior-pop phase 0..200, x-priority, queue kind) and every (capacity 1..16, item count, shared|sibling, kind) configuration is executed on the real queues and judged; plus seeded 'emptied by thieves, then idle' histories. Complete over the stated grid, nothing beyond it.",
+            "Sequential histories; the 61 bound is read for an item alone in the shared queue.", "DESIGN.md §3 C06", "wl-pure/queues"),
+    "C25": ("exploration", "runtime monitoring: model-based oracle with drop-counting values over seeded histories, natively, under Miri (leak checker on) and on real coroutines",
+            "Every return value of put/get/get_mut/remove is compared with a per-storage HashMap model, and after the owner is dropped every value must have been dropped exactly once; thousands of seeded histories natively, dozens under Miri (UAF/double free/leak as independent witness), plus real coroutines.",
+            "Keys are used with one value type each (type-erased API by design).", "DESIGN.md §3 C25", "wl-pure/local"),
+    "C26": ("exploration", "runtime monitoring: address-agreement oracle over barrier-released first users; forked fresh processes for the factory's own first use; Miri many-seeds and TSan as race detectors",
+            "All threads racing on the first use of a bean name (and of the factory itself, one fresh process per trial) must be handed one instance that later lookups also return. Thousands of races sampled natively, Miri explores small cases under many scheduler seeds and flags data races; sampling only.",
+            "Sampled schedules; users of singletons are assumed to go through BeanFactory::get_or_default.", "DESIGN.md §3 C26", "wl-pure/beans"),
 }
 
 NOT_YET = "check not built yet in this session (work in progress; see DESIGN.md §3 for the planned monitor)"
@@ -59,7 +74,7 @@ def main():
 NA = {}
 
 ENGINES = [
-    {"name": "wl-pure/queues", "path": "/verif/wl-pure", "serves_properties": ["C03", "C04", "C05", "C06"],
+    {"name": "wl-pure/queues", "path": "/verif/wl-pure", "serves_properties": ["C03", "C04", "C05", "C06", "C25", "C26"],
      "kind_free_text": "Rust workload binary over the real work_steal.rs/ordered_work_steal.rs (#[path] include), run natively, under Miri and under TSan; online oracles"},
     {"name": "driver", "path": "/verif/check", "serves_properties": [],
      "kind_free_text": "python3 driver: builds, fans seeded case ranges out over processes, resumes after crashes/hangs, matches signatures against known_findings.json, writes evidence/replay"},
